@@ -58,6 +58,15 @@ def ctx_processor_name(sym: dict) -> str:
     return f"Template_{sym['dst']}"
 
 
+def strict_differs(a: Any, b: Any) -> bool:
+    """The 'actual difference' of two context values is judged on content INCLUDING type and representation (2 vs 2.0, True vs 1,
+    0.0 vs -0.0 are different contents — they serialise and hash differently), not with ==; equal nested mappings in another
+    key order are the same content."""
+    import json as _json
+
+    return _json.dumps(core.jsonable(a), sort_keys=True, default=repr) != _json.dumps(core.jsonable(b), sort_keys=True, default=repr)
+
+
 def jsonable_equal(a: Any, b: Any) -> bool:
     if isinstance(a, float) and isinstance(b, (int, float)):
         return a == b
@@ -108,7 +117,7 @@ def judge_run(prog, ctx, detail, tz, scratch, digests: Dict[str, Dict[str, str]]
         where = f"SER {i} ({prog[i]})"
         # (a) context delta
         created = sorted(k for k in post_ctx if k not in pre_ctx)
-        updated = sorted(k for k in post_ctx if k in pre_ctx and post_ctx[k] != pre_ctx[k])
+        updated = sorted(k for k in post_ctx if k in pre_ctx and strict_differs(post_ctx[k], pre_ctx[k]))
         cd = s["context_delta"]
         if sorted(cd["created_keys"]) != created or sorted(cd["updated_keys"]) != updated:
             return ("wrong-context-delta", f"{where}: created={cd['created_keys']} updated={cd['updated_keys']}; actual created={created} updated={updated}"), info
@@ -189,6 +198,19 @@ def contexts_c07(prog) -> List[Dict[str, Any]]:
             for k in ks[:3]:
                 out.append({k: gen.KEY_VALUES.get(k, 0.0625)})
     out.append({"zz": 0.125})
+    # a key that a node will (re)write, present beforehand with a value that is == to what will be written but of another type
+    # (2 for 2.0, True for 1.0): the write is an update
+    try:
+        dk = first_accepted_kind(prog)
+        fin = interp.run(prog, gen.ref_data(dk), {})
+        if fin.status == "ok":
+            for k, v in fin.ctx.items():
+                if isinstance(v, float) and v.is_integer():
+                    out.append({k: int(v)})
+                    if v == 1.0:
+                        out.append({k: True})
+    except Exception:
+        pass
     return out
 
 
